@@ -171,6 +171,9 @@ def parse_output(res, out):
         m = re.match(r"Error: Invariant (\w+) is violated", s)
         if m:
             res.violated.append(m.group(1))
+        m = re.match(r"Error: The invariant of (\w+) is equal to FALSE", s)
+        if m:
+            res.violated.append(m.group(1))
         m = re.match(r"Error: Action property (\w+) is violated", s)
         if m:
             res.violated.append(m.group(1))
